@@ -205,7 +205,7 @@ func Probe(bc *blockchain.Blockchain, ps *ProbeSet) Obs {
 		var eh eth.Hash
 		copy(eh[:], mh)
 		th, err := bc.L1HandlerTxnHash(&eh)
-		o["m"+hex.EncodeToString([]byte(mh))[:12]] = ans(th, err)
+		o["msg/0x"+hex.EncodeToString([]byte(mh))] = ans(th, err)
 	}
 	if !ps.SkipState {
 		if sr, closer, err := bc.HeadState(); err != nil {
